@@ -99,6 +99,31 @@ def abandoned_image(hist, records, k):
     return store.data.get('mem.gro', '')
 
 
+def abandoned_over_existing(path, hist, records, k, complete_text):
+    """Non-initial state on a REAL path: it holds a complete file; a new writer is opened on it, writes k records
+    and is dropped without close().  Returns the content of the path afterwards."""
+    import gc
+    from gaddlemaps.parsers import GroFile
+    with open(path, 'w', newline='') as fh:
+        fh.write(complete_text.replace('crash images', 'older output', 1))     # the output of an earlier run
+    g = GroFile(path, 'w')
+    try:
+        g.comment = 'crash images'
+        g.box_matrix = BOXES[hist['box']]
+        dec = declared_count(hist['n'], hist['count'])
+        if dec is not None:
+            g.natoms = dec
+        for r in records[:k]:
+            g.writeline(r)
+        g._file.flush()
+    except Exception:
+        pass
+    del g
+    gc.collect()
+    with open(path, newline='') as fh:
+        return fh.read()
+
+
 def apply_write(data, pos, text):
     if pos > len(data):
         data = data + '\0' * (pos - len(data))
@@ -318,8 +343,10 @@ class C14(Check):
             # the seam writes what a real file would contain
             with self._path() as path:
                 rerr = run_writer(path, case, records)
-                with open(path, newline='') as fh:
-                    real = fh.read()
+                real = ''
+                if os.path.exists(path):          # a writer given no record may leave no file at all
+                    with open(path, newline='') as fh:
+                        real = fh.read()
                 if real != final or (rerr is None) != (werr is None):
                     R.violation('harness/recording-file-differs-from-real-file', case,
                                 (real[-200:], final[-200:], repr(rerr), repr(werr)))
@@ -345,6 +372,14 @@ class C14(Check):
                     if not (complete and image == final):
                         self._judge(R, dict(case, img=['abandon', k, None]), image, complete, final, expected,
                                     box_offset, 'abandoned-writer/', 'abandoned/' + cls)
+            if complete and n <= 4:
+                with self._path() as path:
+                    for k in range(n + 1):
+                        image = abandoned_over_existing(path, case, records, k, final)
+                        if image != final:
+                            self._judge(R, dict(case, img=['abandon-over', k, None]), image, True, final, expected,
+                                        box_offset, 'abandoned-writer-over-existing-file/', 'abandoned-over/' + cls,
+                                        given=read_real_file(path, image))
             if complete:
                 for k in range(len(final) + 1):
                     self._judge(R, dict(case, img=['trunc', k, None]), final[:k], True, final, expected,
@@ -355,7 +390,13 @@ class C14(Check):
             self._over_existing(case, R, ops, final, expected, box_offset, cls, only_i=only[1])
         else:
             kind, i, t = only
-            if kind == 'abandon':
+            if kind == 'abandon-over':
+                with self._path() as path:
+                    image = abandoned_over_existing(path, case, records, i, final)
+                    self._judge(R, case, image, True, final, expected, box_offset,
+                                'abandoned-writer-over-existing-file/', 'abandoned-over/' + cls,
+                                given=read_real_file(path, image))
+            elif kind == 'abandon':
                 self._judge(R, case, abandoned_image(case, records, i), complete, final, expected, box_offset,
                             'abandoned-writer/', 'abandoned/' + cls)
             elif kind == 'trunc':
